@@ -159,6 +159,15 @@ PROPS = {
                         "observables: /proc/<pid>/task/<tid>/status State and TracerPid, spin and signal counters in a page shared with the target"],
         'partial': 'the theorem covers the dumper bookkeeping over the abstract kernel; real signal/attach races and kernel stop semantics are observed, not proved; panics unwinding through Drop are covered by the model (AfterSuspend) but not induced live',
     },
+    'C17': {
+        'abi_module': 'AbiC17',
+        'stages': quick_thorough(
+            [{'name': 'ranges', 'sub': 'c17', 'n': 300, 'timeout': 600}],
+            [{'name': 'ranges', 'sub': 'c17', 'n': 1500, 'timeout': 3000}]),
+        'assumptions': ["kernel semantics of process_vm_readv / pread(/proc/pid/mem) / PTRACE_PEEKDATA as listed in DESIGN.md section 4 (each observed in this sandbox)",
+                        "target memory holds the address-derived pattern the target wrote (checked against an independent read once per target)"],
+        'partial': 'the three primitives are kernel behaviour: modelled, not verified',
+    },
     'C13': {
         'abi_module': 'AbiC13',
         'stages': quick_thorough(
